@@ -18,7 +18,7 @@ TITLE = "TrustRegionSPG: feasibility of every reported iterate, descent, honest 
 LEVEL = "model_checking"
 RULE = ("E-DEV x E-PROD: (objective family) x (box: all 5^n per-coordinate bound types {free, lower, upper, two-sided, "
         "lower==upper} x 3 placements of the unconstrained minimiser {outside, inside, on a face}) x (feasible starts: "
-        "low vertex, high vertex, centre, face midpoint) x every solver configuration with at most k non-default axes "
+        "low vertex, centre, high vertex, face midpoint; quick uses the first two / one) x every solver configuration with at most k non-default axes "
         "(8 axes). Part A (full box product) uses k_A, part B (reduced box set) uses k_B > k_A. Plus E-PROD lattice for "
         "project/project_onto_tr (points x boxes x radii). Non-trivial = at least one SPG subproblem was solved "
         "(solver run) / the projection moved the point (projection case); both measured.")
@@ -76,8 +76,12 @@ def groups(tier, seed):
     dims = [2] if tier == "quick" else [3, 2]
     for n in dims:
         for spec, basis in FAMS_Q:
+            if tier == "quick" and spec in ("spd1", "semidef"):
+                continue        # quick keeps 4 of the 6 spectra (spd100, badscale, indef, zeroA)
             for part in ("A", "B"):
-                ns = 4 if part == "A" else 2
+                if n == 3 and part == "A":
+                    continue
+                ns = 4 if tier == "quick" else 8
                 for s in range(ns):
                     gs.append({"name": "q-n%d-%s%s-%s%d" % (n, spec, basis, part, s), "fam": "quartic", "n": n,
                                "spec": spec, "basis": basis, "part": part, "shard": s, "nshards": ns})
@@ -122,14 +126,16 @@ def _boxes(n, centre, part, tier):
             yield "box=%s:%s" % ("".join(x[0] for x in combo), pl), lb, ub
 
 
-def _starts(lb, ub, centre, part):
+def _starts(lb, ub, centre, part, tier):
     n = lb.size
     lo = onp.where(onp.isfinite(lb), lb, onp.where(onp.isfinite(ub), ub - 3.0, centre - 3.0))
     hi = onp.where(onp.isfinite(ub), ub, onp.where(onp.isfinite(lb), lb + 3.0, centre + 3.0))
     mid = 0.5 * (lo + hi)
     face = mid.copy()
     face[0] = lo[0]
-    sts = [("lowvertex", lo), ("highvertex", hi), ("centre", mid), ("facemid", face)]
+    sts = [("lowvertex", lo), ("centre", mid), ("highvertex", hi), ("facemid", face)]
+    if tier == "quick":
+        return sts[:2] if part == "A" else sts[:1]
     return sts if part == "A" else sts[:2]
 
 
@@ -193,6 +199,8 @@ def run_group(g, tier, seed, rec):
     obj = Objective.Objective(f, jnp.zeros(n), params(d))
     pnew, pold = params(d), params(d, old=True)
     kA, kB = _ks(tier)
+    if n == 3:
+        kB = 2
     axes = _axes()
     configs = list(deviations(axes, kA if part == "A" else kB))
 
@@ -218,7 +226,7 @@ def run_group(g, tier, seed, rec):
                      [("lowvertex", onp.array([math.pi - 0.5])), ("highvertex", onp.array([math.pi + 2.0])),
                       ("atmax", onp.array([math.pi]))])]
     else:
-        problems = [(bl, lb, ub, _starts(lb, ub, centre, part)) for bl, lb, ub in _boxes(n, centre, part, tier)]
+        problems = [(bl, lb, ub, _starts(lb, ub, centre, part, tier)) for bl, lb, ub in _boxes(n, centre, part, tier)]
 
     idx = -1
     sample_budget = [2]
